@@ -226,7 +226,7 @@ def leaves(s, pre=()):
 
 def slots(s, pre=()):
     """nil-able positions on a side, in the oracle's order: embedded pointers, pointer fields, slices,
-    elements of pointer slices (two elements per slice)"""
+    elements of pointer slices (three elements per slice: first, middle, last)"""
     out = []
     for m in s["members"]:
         if m["k"] == "f":
@@ -237,7 +237,7 @@ def slots(s, pre=()):
             elif t[0] == "s":
                 out.append(p)
                 if t[1][0] == "p":
-                    out += [p + "#0", p + "#1"]
+                    out += [p + "#0", p + "#1", p + "#2"]
         else:
             if m["decl"].get("back"):
                 continue          # stays nil: the oracle passes it by
@@ -258,7 +258,8 @@ def side_struct(spec, side):
 
 
 def part_masks(st):
-    """partially nil chains: one mask per embedded pointer (that pointer nil, everything else populated), plus all of them nil"""
+    """partially nil inputs: one mask per embedded pointer (that pointer nil, everything else populated), plus all of them nil;
+    one mask per element of a slice of pointers"""
     sl = slots(st)
     emb = set()
 
@@ -276,6 +277,14 @@ def part_masks(st):
         out.append("".join("1" if j == i else "0" for j in range(len(sl))))
     if len(idx) > 1:
         out.append("".join("1" if j in idx else "0" for j in range(len(sl))))
+    # nil ELEMENTS of pointer slices: one position at a time (first / middle / last), then first+last - the result keeps its
+    # length and every other element its index
+    el = [i for i, x in enumerate(sl) if "#" in x]
+    for i in el:
+        out.append("".join("1" if j == i else "0" for j in range(len(sl))))
+    for i in el:
+        if sl[i].endswith("#0") and i + 2 < len(sl) and sl[i + 2].endswith("#2"):
+            out.append("".join("1" if j in (i, i + 2) else "0" for j in range(len(sl))))
     return out
 
 
